@@ -114,6 +114,7 @@ func c18P(id, flags uint16, qs []Val, an []Val) Val {
 // them completely, (2 raw) otherwise.
 func c18ResponseVal(raw []byte) Val {
 	var p nbtns.NBTNSPacket
+	dirty(&p)
 	n, err := p.Unmarshal(exact(raw))
 	if err != nil || n != len(raw) {
 		return L(U(2), B(raw))
